@@ -43,7 +43,9 @@ pub fn type_sz(t: &Type, ptrw: usize, names: &dyn Fn(&str) -> Option<Sz>) -> Opt
                 align: e.align,
             })
         }
-        Type::Ident(id) => builtin(id.as_str()).or_else(|| names(id.as_str())),
+        // the resolver knows the scoping rules (a type imported by name beats a built-in); the
+        // built-in table is the fallback for callers without one
+        Type::Ident(id) => names(id.as_str()).or_else(|| builtin(id.as_str())),
         Type::Unknown(n) => Some(Sz { size: *n, align: 1 }),
     }
 }
